@@ -56,10 +56,11 @@ def phonon_oracle(ctx, c):
     E = rng.uniform(-mag, mag, nv)
     F = rng.uniform(-mag, mag, (nv, nq, npm))
     Q = rng.uniform(-1, 1, (nq, 3))
+    QV = Q[None, :, :] + (rng.uniform(-0.05, 0.05, (nv, nq, 3)) if c.get("q_per_volume", True) else 0.0)   # Cartesian q of a strained cell
     W = rng.uniform(0, 10, nq)
     W[rng.random(nq) < 0.2] = 0.0
     vols = [models.VolumeData(float(P[i]), float(V[i]), float(E[i]),
-                              [models.QPointData(tuple(float(x) for x in Q[j]), [float(x) for x in F[i, j]]) for j in range(nq)]) for i in range(nv)]
+                              [models.QPointData(tuple(float(x) for x in QV[i, j]), [float(x) for x in F[i, j]]) for j in range(nq)]) for i in range(nv)]
     weights = [models.QPointWeight(tuple(float(x) for x in Q[j]), float(W[j])) for j in range(nq)]
     data = models.QHAInputData(nv, nq, npm, c["nm"], c["na"], weights, vols)
     d = tempfile.mkdtemp(prefix="cijc17-")
@@ -80,8 +81,8 @@ def phonon_oracle(ctx, c):
         if len(v.q_points) != nq:
             raise PropertyViolation("C17/phonon/lengths", "volume %d has %d q-points" % (i, len(v.q_points)), c)
         for j, qp in enumerate(v.q_points):
-            if np.max(np.abs(np.array(qp.coord) - Q[j])) > 5.1e-5:
-                raise PropertyViolation("C17/phonon/q-coordinates", "q-point %d of volume %d: %r vs %r" % (j, i, qp.coord, Q[j].tolist()), c)
+            if np.max(np.abs(np.array(qp.coord) - QV[i, j])) > 5.1e-5:
+                raise PropertyViolation("C17/phonon/q-coordinates", "q-point %d of volume %d: %r vs %r" % (j, i, qp.coord, QV[i, j].tolist()), c)
             if len(qp.modes) != npm or np.max(np.abs(np.array(qp.modes) - F[i, j])) > 5.1e-7:
                 raise PropertyViolation("C17/phonon/frequencies", "frequencies of q-point %d, volume %d differ" % (j, i), c)
     for j, w in enumerate(back.weights):
@@ -123,7 +124,7 @@ def static_cases(draw):
     return {"keys": [list(KEYS21[i]) for i in order], "nrows": nrows, "style": draw(st.sampled_from(STYLES)),
             "lattice": draw(st.booleans()), "trail": draw(st.sampled_from(["", " ", "\t", "   \t "])),
             "seed": draw(st.integers(0, 2 ** 32 - 1)), "blank_end": draw(st.booleans()),
-            "header_word": draw(st.sampled_from(["V", "v", "Volume", "V(bohr3)"]))}
+            "header_word": draw(st.sampled_from(["V", "v", "Volume", "V(bohr3)"])), "zero_cols": draw(st.booleans())}
 
 
 def write_static(path, c, vols, tab, lat, vref, mass):
@@ -149,6 +150,11 @@ def static_oracle(ctx, c):
     nrows, nk = c["nrows"], len(c["keys"])
     vols = np.sort(rng.uniform(50, 3000, nrows))[::-1]
     tab = rng.uniform(-500, 900, (nrows, nk))
+    if c.get("zero_cols"):
+        # symmetry-forbidden / placeholder components tabulated as zeros are still tabulated components
+        z = rng.random(nk) < 0.3
+        z[int(rng.integers(0, nk))] = True
+        tab[:, z] = 0.0
     lat = rng.uniform(0.5, 12, (nrows, 3))
     vref, mass = float(rng.uniform(50, 3000)), float(rng.uniform(1, 2000))
     d = tempfile.mkdtemp(prefix="cijc17-")
@@ -184,7 +190,8 @@ def static_oracle(ctx, c):
 def static_target(ctx):
     def body(c):
         static_oracle(ctx, c)
-        ctx.case(c, c["style"] != "c" and c["lattice"], classes=["static", "style-" + c["style"], "lattice" if c["lattice"] else "no-lattice"])
+        ctx.case(c, c["style"] != "c" and c["lattice"], classes=["static", "style-" + c["style"], "lattice" if c["lattice"] else "no-lattice",
+                                                                   "zero-columns" if c.get("zero_cols") else "no-zero-columns"])
 
     return body, (static_cases(),)
 
